@@ -165,3 +165,113 @@ Check C14_numbers_stream_foreign.
 Print Assumptions C14_numbers_stream_foreign.
 Check C14_numbers_cleanup_foreign_ignored.
 Print Assumptions C14_numbers_cleanup_foreign_ignored.
+
+(* ------------------------------------------------------------------ the other three namings *)
+Require Import FL.Flw.NumDInv FL.Flw.NumDForeign FL.Time.Civil FL.Flw.TsTime FL.Flw.TsNames FL.Flw.TsInv FL.Flw.TsRun FL.Flw.TsTheorems
+  FL.Flw.TsdInv FL.Flw.TsForeignFacts FL.Flw.TsdForeign FL.Flw.TsForeign.
+
+(* NumbersDirect naming: foreign = the number filter rejects the name, as a plain file and as an archive (the rCURRENT file
+   of Numbers naming is foreign here) *)
+Theorem C14_numbersdirect_foreign_ignored c crit t0 off foreign ops :
+  numdcfg c crit -> Forall basic_op ops ->
+  NoDup (List.map fst foreign) ->
+  (forall n, In n (List.map fst foreign) -> numd_member c n = false) ->
+  let ops' := OStart c :: ops ++ [OStop] in
+  let rf := run (sys0f t0 off foreign) ops' in
+  let r0 := run (sys0 t0 off) ops' in
+  List.map (strip_obs (List.map fst foreign)) (snd rf) = snd r0
+  /\ (Forall (fun o => o <> OSnap) ops -> snd rf = snd r0)
+  /\ (forall n d, In (n, d) foreign -> file_of (wfs (s_w (fst rf))) n = Some (plain_file t0 d))
+  /\ (forall n, ~ In n (List.map fst foreign) -> file_of (wfs (s_w (fst rf))) n = file_of (wfs (s_w (fst r0))) n)
+  /\ (forall n, In n (List.map fst foreign) -> file_of (wfs (s_w (fst r0))) n = None)
+  /\ fst rf = embedx (names (fs0f t0 foreign)) (inodes (fs0f t0 foreign)) (fst r0).
+Proof. exact (numbersdirect_foreign_ignored c crit t0 off foreign ops). Qed.
+
+Theorem C14_numbersdirect_stream_foreign c crit t0 off foreign ops :
+  numdcfg c crit -> Forall basic_op ops ->
+  NoDup (List.map fst foreign) ->
+  (forall n, In n (List.map fst foreign) -> numd_member c n = false) ->
+  exists files,
+    direct_view_family c (List.map fst foreign)
+      (wfs (s_w (fst (run (sys0f t0 off foreign) (OStart c :: ops ++ [OStop]))))) files
+    /\ concat files = written ops.
+Proof. exact (numbersdirect_stream_foreign c crit t0 off foreign ops). Qed.
+
+(* TimestampsDirect naming: foreign = tsd_member rejects the name: no infix is extracted from it, or one that neither the
+   time-stamp filter nor the number filter accepts - as a plain file, as an archive, and with ".gz" removed *)
+Theorem C14_timestampsdirect_foreign_ignored c crit t0 off foreign ops :
+  tsdcfg c crit -> tag_ok c -> Forall basic_op ops -> Forall tick_ok ops ->
+  (0 <= t0 + ts_e c off)%Z -> (t0 + elapsed ops + ts_e c off < sec_max)%Z -> (N.of_nat (length ops) <= usize_max)%N ->
+  NoDup (List.map fst foreign) ->
+  (forall n, In n (List.map fst foreign) -> tsd_member c n = false) ->
+  let ops' := OStart c :: ops ++ [OStop] in
+  let rf := run (sys0f t0 off foreign) ops' in
+  let r0 := run (sys0 t0 off) ops' in
+  List.map (strip_obs (List.map fst foreign)) (snd rf) = snd r0
+  /\ (Forall (fun o => o <> OSnap) ops -> snd rf = snd r0)
+  /\ (forall n d, In (n, d) foreign -> file_of (wfs (s_w (fst rf))) n = Some (plain_file t0 d))
+  /\ (forall n, ~ In n (List.map fst foreign) -> file_of (wfs (s_w (fst rf))) n = file_of (wfs (s_w (fst r0))) n)
+  /\ (forall n, In n (List.map fst foreign) -> file_of (wfs (s_w (fst r0))) n = None)
+  /\ fst rf = embedx (names (fs0f t0 foreign)) (inodes (fs0f t0 foreign)) (fst r0).
+Proof. exact (timestampsdirect_foreign_ignored c crit t0 off foreign ops). Qed.
+
+Theorem C14_timestampsdirect_stream_foreign c crit t0 off foreign ops :
+  tsdcfg c crit -> tag_ok c -> Forall basic_op ops -> Forall tick_ok ops ->
+  (0 <= t0 + ts_e c off)%Z -> (t0 + elapsed ops + ts_e c off < sec_max)%Z -> (N.of_nat (length ops) <= usize_max)%N ->
+  NoDup (List.map fst foreign) ->
+  (forall n, In n (List.map fst foreign) -> tsd_member c n = false) ->
+  exists keys files,
+    tsd_view_family c (ts_e c off) (List.map fst foreign)
+      (wfs (s_w (fst (run (sys0f t0 off foreign) (OStart c :: ops ++ [OStop]))))) keys files
+    /\ concat files = written ops /\ keys_ok keys
+    /\ (forall k, In k keys -> (t0 <= fst k <= t0 + elapsed ops)%Z).
+Proof. exact (timestampsdirect_stream_foreign c crit t0 off foreign ops). Qed.
+
+(* Timestamps naming: foreign = ts_member rejects the name: as before, and it is not the rCURRENT file *)
+Theorem C14_timestamps_foreign_ignored c crit t0 off foreign ops :
+  tscfg c crit -> tag_ok c -> Forall basic_op ops -> Forall tick_ok ops ->
+  (0 <= t0 + ts_e c off)%Z -> (t0 + elapsed ops + ts_e c off < sec_max)%Z -> (N.of_nat (length ops) <= usize_max)%N ->
+  NoDup (List.map fst foreign) ->
+  (forall n, In n (List.map fst foreign) -> ts_member c n = false) ->
+  let ops' := OStart c :: ops ++ [OStop] in
+  let rf := run (sys0f t0 off foreign) ops' in
+  let r0 := run (sys0 t0 off) ops' in
+  List.map (strip_obs (List.map fst foreign)) (snd rf) = snd r0
+  /\ (Forall (fun o => o <> OSnap) ops -> snd rf = snd r0)
+  /\ (forall n d, In (n, d) foreign -> file_of (wfs (s_w (fst rf))) n = Some (plain_file t0 d))
+  /\ (forall n, ~ In n (List.map fst foreign) -> file_of (wfs (s_w (fst rf))) n = file_of (wfs (s_w (fst r0))) n)
+  /\ (forall n, In n (List.map fst foreign) -> file_of (wfs (s_w (fst r0))) n = None)
+  /\ fst rf = embedx (names (fs0f t0 foreign)) (inodes (fs0f t0 foreign)) (fst r0).
+Proof. exact (timestamps_foreign_ignored c crit t0 off foreign ops). Qed.
+
+Theorem C14_timestamps_stream_foreign c crit t0 off foreign ops :
+  tscfg c crit -> tag_ok c -> Forall basic_op ops -> Forall tick_ok ops ->
+  (0 <= t0 + ts_e c off)%Z -> (t0 + elapsed ops + ts_e c off < sec_max)%Z -> (N.of_nat (length ops) <= usize_max)%N ->
+  NoDup (List.map fst foreign) ->
+  (forall n, In n (List.map fst foreign) -> ts_member c n = false) ->
+  let f := wfs (s_w (fst (run (sys0f t0 off foreign) (OStart c :: ops ++ [OStop])))) in
+  ((forall n, ~ In n (List.map fst foreign) -> file_of f n = None) /\ written ops = [])
+  \/ exists keys closed cur,
+       ts_view_family c (ts_e c off) (List.map fst foreign) f keys closed cur
+       /\ concat closed ++ cur = written ops
+       /\ keys_ok keys
+       /\ (forall k, In k keys -> (t0 <= fst k <= t0 + elapsed ops)%Z).
+Proof. exact (timestamps_stream_foreign c crit t0 off foreign ops). Qed.
+
+(* which names are foreign with the time-stamp namings: every member has the shape <fixed>_r... *)
+Theorem C14_ts_member_shape c n : ts_member c n = true -> exists y, n = under (fixed0 c) ++ r_char :: y.
+Proof. exact (ts_member_shape c n). Qed.
+
+Check C14_numbersdirect_foreign_ignored.
+Print Assumptions C14_numbersdirect_foreign_ignored.
+Check C14_numbersdirect_stream_foreign.
+Print Assumptions C14_numbersdirect_stream_foreign.
+Check C14_timestampsdirect_foreign_ignored.
+Print Assumptions C14_timestampsdirect_foreign_ignored.
+Check C14_timestampsdirect_stream_foreign.
+Print Assumptions C14_timestampsdirect_stream_foreign.
+Check C14_timestamps_foreign_ignored.
+Print Assumptions C14_timestamps_foreign_ignored.
+Check C14_timestamps_stream_foreign.
+Print Assumptions C14_timestamps_stream_foreign.
+Print Assumptions C14_ts_member_shape.
